@@ -1,92 +1,187 @@
 import GqlProofs.Json.RoundTrip
+import GqlProofs.Json.ParsedClean
 /-
   C19 — "Encoding any parsed executable document to JSON and decoding it back yields a document
   with the same operations, fragments and selections: fields stay fields, fragment spreads stay
   fragment spreads, inline fragments stay inline fragments, at every nesting depth, with names,
   arguments, values, directives and type conditions intact."
 
-  Model: `GqlModel/Json/Model.lean` (`encodeQueryDoc` = `json.Marshal` of the ast structs,
-  `decodeQueryDocWith disc` = /repo/ast/decode.go + default struct decoding), tied to the code by
-  check C19 (ops `jsonenc`, `jsonrt`: byte-equal encodings, equal round-tripped trees).
-  `stripDoc d` is `d` with every position zeroed (positions are `json:"-"`), i.e. "the same
-  document" of the property; `Utf8Clean d` says that every name / raw value of `d` is well-formed
-  UTF-8 (true of every document parsed from UTF-8 text; `json.Marshal` rewrites ill-formed bytes
-  to U+FFFD, see `C19_roundtrip_illformed_utf8_counterexample`).
+  Model: `GqlModel/Json/Model.lean` — `encodeQueryDoc` = `json.Marshal` of the ast structs,
+  `decodeQueryDoc` = /repo/ast/decode.go (with `UnmarshalSelectionSet` choosing the decoder by the
+  keys present: `currentDisc = repairedDisc`) + default struct decoding.  Tied to the code by check
+  C19: ops `jsonenc` (byte-equal encodings), `jsonrt` (equal round-tripped trees), `jsondec` (equal
+  decodings of hand-written and mutated JSON), `jsonwf` (the hypothesis below holds of what the
+  parser builds from UTF-8 text).
 
-  The classification of a selection object is one definition, `currentDisc` (today `legacyDisc`:
-  Field decoder first).  Theorems in the LEGACY section are about `decodeQueryDoc` (= the current
-  discriminator) and state the defect R19; they are to be deleted when decode.go is repaired and
-  `currentDisc` is flipped to `repairedDisc`, at which point `C19_roundtrip` IS the statement
-  about `decodeQueryDoc` (`by simpa [decodeQueryDoc, currentDisc] using C19_roundtrip d h`).
+  WELL-FORMEDNESS.  The one hypothesis of the round-trip theorem is `utf8CleanB d = true`
+  (executable; `↔ Utf8Clean d`, `C19_wellformed_decidable`): every string of the tree — operation
+  types, names, aliases, variables, type names, type conditions, raw values, object-field names —
+  is well-formed UTF-8.  The encoder needs nothing else (it is total on the tree type).
+  PARSED DOCUMENTS.  PROVED (`C19_parsed_document_wellformed`, by an invariant of the parser model:
+  every byte string it puts into the tree is a token value or a constant): if every token the LEXER
+  model produces from the source has a well-formed UTF-8 value (`sourceCleanB inp`, executable, or
+  `LexClean`), then whatever `parseQuery` returns is well-formed, hence round-trips
+  (`C19_parsed_roundtrip`).  ASSUMED, NOT PROVED: that the lexer model's token values are
+  well-formed UTF-8 whenever the source text is valid UTF-8.  (Names and numbers are ASCII; quoted
+  and block strings and comments are copied byte by byte between ASCII delimiters, and `\uXXXX`
+  escapes are written with `WriteRune`, which never emits ill-formed bytes.)  Check C19 tests the
+  assumption on every source it parses (`sourceCleanB` and `utf8CleanB` must hold when the text is
+  valid UTF-8: `json-wf-assumption-fails`).  For source text that is NOT valid UTF-8 the property
+  fails, in the Go code too (known finding `value-lost/invalid-utf8`,
+  `C19_roundtrip_illformed_utf8_counterexample`).
+
+  THE IMAGE.  `stripDoc d` is `d` with every `Pos` field of the tree set to `Pos.zero` (positions are
+  `json:"-"`) and nothing else changed: kinds of selections, their order and nesting, names,
+  aliases, arguments, values (kind, raw text, children), directives, type conditions, variable
+  definitions, operation types are kept (`C19_image_keeps_*`).  What the tree type itself does not
+  record, and C19 does not mention: comments (`Comment *CommentGroup`), the validation links (nil in
+  a parsed document), and whether an empty list is a nil or an empty Go slice.
 -/
 open Gql Gql.Json
 
-/- ======================= LEGACY discriminator (the tree as it stands) ======================= -/
+/- ======================= the current code: full round trip ======================= -/
 
-theorem C19_current_discriminator_is_legacy : currentDisc = legacyDisc := rfl
+/-- the modelled `UnmarshalSelectionSet` classifies by the keys present -/
+theorem C19_current_discriminator_is_repaired : currentDisc = repairedDisc := rfl
 
-/-- Complete characterisation of the current round trip: it never fails, and what comes back is
-    the document with positions dropped, strings coerced to UTF-8 and EVERY fragment spread /
-    inline fragment replaced by a field (spread `...F @d` ↦ field named `F` with `@d`; inline
-    fragment ↦ nameless field carrying its directives and selection set). -/
-theorem C19_roundtrip_legacy_image (d : QueryDoc) :
-    decodeQueryDoc (encodeQueryDoc d) = .ok (imgDoc sanitize true d) :=
-  decode_legacy_encode d
+/-- the well-formedness predicate is decidable: `utf8CleanB` decides `Utf8Clean` -/
+theorem C19_wellformed_decidable (d : QueryDoc) : utf8CleanB d = true ↔ Utf8Clean d := utf8CleanB_iff d
 
-/-- … in particular every selection of the result, at every depth, is a field. -/
-theorem C19_roundtrip_legacy_all_fields (d : QueryDoc) :
-    ∃ d', decodeQueryDoc (encodeQueryDoc d) = .ok d' ∧ ∀ k ∈ docKinds d', k = SelKind.field := by
-  refine ⟨_, C19_roundtrip_legacy_image d, ?_⟩
-  intro k hk
-  simp only [docKinds, imgDoc, List.mem_append, List.mem_flatMap, List.mem_map] at hk
-  rcases hk with ⟨o, ⟨o', _, rfl⟩, hk⟩ | ⟨fr, ⟨fr', _, rfl⟩, hk⟩
-  · exact selsKinds_img_legacy sanitize o'.sel k (by simpa [imgOp] using hk)
-  · exact selsKinds_img_legacy sanitize fr'.sel k (by simpa [imgFrag] using hk)
+/-- Without any hypothesis: the round trip never fails and returns the document with positions
+    zeroed and every string passed through the UTF-8 coercion of `json.Marshal`; every selection
+    keeps its kind (`imgDoc … false`). -/
+theorem C19_roundtrip_image (d : QueryDoc) :
+    decodeQueryDoc (encodeQueryDoc d) = .ok (imgDoc sanitize false d) :=
+  decode_repaired_encode d
 
-/-- `{ a ...F ... on T { b } }` as the parser builds it -/
-def c19Witness : QueryDoc :=
-  { ops := [{ op := str "query", name := [], vars := [], dirs := [], pos := Pos.zero,
-              sel := .cons (.field (str "a") (str "a") [] [] .nil Pos.zero)
-                    (.cons (.spread (str "F") [] Pos.zero)
-                    (.cons (.inline (str "T") [] (.cons (.field (str "b") (str "b") [] [] .nil Pos.zero) .nil) Pos.zero)
-                     .nil)) }],
-    frags := [] }
-
-/-- R19, kernel-checked on the model: the round trip of `{ a ...F ... on T { b } }` succeeds and
-    returns selections of kinds field, field, field, field instead of field, spread, inline, field. -/
-theorem C19_roundtrip_counterexample :
-    ∃ d', decodeQueryDoc (encodeQueryDoc c19Witness) = .ok d' ∧
-      docKinds c19Witness = [.field, .spread, .inline, .field] ∧
-      docKinds d' = [.field, .field, .field, .field] ∧ docKinds d' ≠ docKinds c19Witness := by
-  refine ⟨_, C19_roundtrip_legacy_image c19Witness, ?_, ?_, ?_⟩ <;> decide
-
-/-- Documents whose selections are all fields do round-trip with the current code. -/
-theorem C19_roundtrip_fields_only_partial (d : QueryDoc) (hf : FieldsOnly d) (hc : Utf8Clean d) :
+/-- MAIN THEOREM.  For every well-formed document the round trip of the current code succeeds and
+    returns the same document, positions aside: the same operations and fragments in the same
+    order, the same selections of the same kinds at every depth, with the same names, aliases,
+    arguments, values, directives, type conditions and variable definitions. -/
+theorem C19_roundtrip (d : QueryDoc) (h : utf8CleanB d = true) :
     decodeQueryDoc (encodeQueryDoc d) = .ok (stripDoc d) := by
-  rw [C19_roundtrip_legacy_image, imgDoc_fieldsOnly sanitize d hf, imgDoc_fix sanitize false d hc]
+  rw [C19_roundtrip_image, imgDoc_fix sanitize false d ((utf8CleanB_iff d).mp h)]
   rfl
 
-/- ======================= REPAIRED discriminator (choose by the keys present) ======================= -/
+/-- the same with the hypothesis as a proposition -/
+theorem C19_roundtrip_of_Utf8Clean (d : QueryDoc) (h : Utf8Clean d) :
+    decodeQueryDoc (encodeQueryDoc d) = .ok (stripDoc d) :=
+  C19_roundtrip d ((utf8CleanB_iff d).mpr h)
 
-/-- One selection alone: encoding then decoding with the repaired classification gives back the
-    same KIND of selection with the same content (strings through the UTF-8 coercion). -/
-theorem C19_roundtrip_selection_repaired (s : Selection) :
+/-- COROLLARY, in the words of the property (no hypothesis needed for the kinds): the decoded
+    document has as many operations and fragments, and at every position `i :: path` below every
+    operation / fragment — i.e. at every nesting depth — there is a selection exactly when the
+    original has one, and it is of the same kind: fields stay fields, fragment spreads stay fragment
+    spreads, inline fragments stay inline fragments. -/
+theorem C19_kinds_preserved_at_every_depth (d : QueryDoc) :
+    ∃ d', decodeQueryDoc (encodeQueryDoc d) = .ok d' ∧
+      d'.ops.length = d.ops.length ∧ d'.frags.length = d.frags.length ∧
+      ∀ (r : Root) (i : Nat) (path : List Nat),
+        (docSelAt d' r i path).map kindOf = (docSelAt d r i path).map kindOf := by
+  refine ⟨_, C19_roundtrip_image d, by simp [imgDoc], by simp [imgDoc], ?_⟩
+  intro r i path
+  rw [docSelAt_imgDoc]
+  cases docSelAt d r i path with
+  | none => rfl
+  | some s => simp [kindOf_imgSel]
+
+/-- … and for a well-formed document the selection found there IS the original one, positions
+    aside: names, aliases, arguments, values, directives and type conditions intact. -/
+theorem C19_selections_preserved_at_every_depth (d : QueryDoc) (h : utf8CleanB d = true) :
+    ∃ d', decodeQueryDoc (encodeQueryDoc d) = .ok d' ∧
+      ∀ (r : Root) (i : Nat) (path : List Nat),
+        docSelAt d' r i path = (docSelAt d r i path).map stripSel :=
+  ⟨_, C19_roundtrip d h, fun r i path => docSelAt_imgDoc id d r i path⟩
+
+/-- the flat version: the kinds of all selections in document order -/
+theorem C19_roundtrip_kinds (d : QueryDoc) :
+    ∃ d', decodeQueryDoc (encodeQueryDoc d) = .ok d' ∧ docKinds d' = docKinds d :=
+  ⟨_, C19_roundtrip_image d, docKinds_img sanitize d⟩
+
+/-- One selection alone: encoding then decoding gives back the same KIND of selection with the same
+    content (strings through the UTF-8 coercion). -/
+theorem C19_roundtrip_selection (s : Selection) :
     decodeSelectionRepaired (encSelection s) = some (imgSel sanitize false s) := by
   simp [decodeSelectionRepaired, decSelItems_repaired_single]
 
-/-- The full property for the repaired decoder: the round trip never fails and gives back the
-    same document (positions aside) — operations, fragments, selections of the same kinds at every
-    depth, names, arguments, values, directives, type conditions, variable definitions. -/
-theorem C19_roundtrip (d : QueryDoc) (hc : Utf8Clean d) :
-    decodeQueryDocWith repairedDisc (encodeQueryDoc d) = .ok (stripDoc d) := by
-  rw [decode_repaired_encode, imgDoc_fix sanitize false d hc]
-  rfl
+/- ---------------- documents produced by the parser model ---------------- -/
 
-/-- Without any assumption on the strings: the repaired round trip never fails and preserves the
-    kind of every selection at every depth. -/
-theorem C19_roundtrip_kinds_repaired (d : QueryDoc) :
-    ∃ d', decodeQueryDocWith repairedDisc (encodeQueryDoc d) = .ok d' ∧ docKinds d' = docKinds d :=
-  ⟨_, decode_repaired_encode d, docKinds_img sanitize d⟩
+/-- Every document the parser model returns for a source whose tokens (as the lexer model produces
+    them) all have well-formed UTF-8 values satisfies the well-formedness predicate. -/
+theorem C19_parsed_document_wellformed (limit : Nat) (inp : Bytes) (d : QueryDoc)
+    (hsrc : sourceCleanB inp = true) (hp : Parser.parseQuery limit inp = .ok d) : utf8CleanB d = true :=
+  Parser.parseQuery_clean limit inp d (Parser.sourceCleanB_sound inp hsrc) hp
+
+/-- the same with the hypothesis on the lexer as a proposition (all tokens ever read) -/
+theorem C19_parsed_document_wellformed_of_LexClean (limit : Nat) (inp : Bytes) (d : QueryDoc)
+    (hsrc : Parser.LexClean inp Lexer.Cur.init) (hp : Parser.parseQuery limit inp = .ok d) : utf8CleanB d = true :=
+  Parser.parseQuery_clean limit inp d hsrc hp
+
+/-- C19 for PARSED documents: parse (with or without token limit), encode, decode — the same
+    document comes back, positions aside. -/
+theorem C19_parsed_roundtrip (limit : Nat) (inp : Bytes) (d : QueryDoc)
+    (hsrc : sourceCleanB inp = true) (hp : Parser.parseQuery limit inp = .ok d) :
+    decodeQueryDoc (encodeQueryDoc d) = .ok (stripDoc d) :=
+  C19_roundtrip d (C19_parsed_document_wellformed limit inp d hsrc hp)
+
+/- ---------------- what the image keeps (it only zeroes positions) ---------------- -/
+
+theorem C19_image_keeps_field (al nm : Name) (args : List Argument) (ds : List Directive) (sel : Selections) (p : Pos) :
+    stripSel (.field al nm args ds sel p)
+      = .field al nm (args.map (imgArg id)) (ds.map (imgDir id)) (imgSels id false sel) Pos.zero := by
+  simp [stripSel, imgSel]
+
+theorem C19_image_keeps_spread (nm : Name) (ds : List Directive) (p : Pos) :
+    stripSel (.spread nm ds p) = .spread nm (ds.map (imgDir id)) Pos.zero := by
+  simp [stripSel, imgSel]
+
+theorem C19_image_keeps_inline (tc : Name) (ds : List Directive) (sel : Selections) (p : Pos) :
+    stripSel (.inline tc ds sel p) = .inline tc (ds.map (imgDir id)) (imgSels id false sel) Pos.zero := by
+  simp [stripSel, imgSel]
+
+theorem C19_image_keeps_directive (d : Directive) :
+    imgDir id d = { name := d.name, args := d.args.map (imgArg id), pos := Pos.zero } := by
+  simp [imgDir]
+
+theorem C19_image_keeps_argument (a : Argument) :
+    imgArg id a = { name := a.name, value := imgValue id a.value, pos := Pos.zero } := by
+  simp [imgArg]
+
+theorem C19_image_keeps_value (k : ValueKind) (raw : Bytes) (ch : Children) (p : Pos) :
+    imgValue id (.mk k raw ch p) = .mk k raw (imgChildren id ch) Pos.zero := by
+  simp [imgValue]
+
+theorem C19_image_keeps_object_field (n : Name) (v : Value) (p : Pos) (rest : Children) :
+    imgChildren id (.cons n v p rest) = .cons n (imgValue id v) Pos.zero (imgChildren id rest) := by
+  simp [imgChildren]
+
+theorem C19_image_keeps_operation (o : OperationDef) :
+    imgOp id false o =
+      { op := o.op, name := o.name, vars := o.vars.map (imgVarDef id),
+        dirs := o.dirs.map (imgDir id), sel := imgSels id false o.sel, pos := Pos.zero } := by
+  simp [imgOp]
+
+theorem C19_image_keeps_fragment (fr : FragmentDef) :
+    imgFrag id false fr =
+      { name := fr.name, vars := fr.vars.map (imgVarDef id), typeCond := fr.typeCond,
+        dirs := fr.dirs.map (imgDir id), sel := imgSels id false fr.sel, pos := Pos.zero } := by
+  simp [imgFrag]
+
+/-- zeroing positions is a projection: "equal positions aside" (`stripDoc a = stripDoc b`) is an
+    equivalence relation, and the round trip of a well-formed document is related to the document -/
+theorem C19_image_idempotent (d : QueryDoc) : stripDoc (stripDoc d) = stripDoc d := stripDoc_idem d
+
+/- ---------------- the decoder on ANY selection object ---------------- -/
+
+/-- Whatever object sits in a `SelectionSet` array, the kind it is decoded to is determined by its
+    keys alone: `Alias` ⇒ field; else `TypeCondition` ⇒ inline fragment; else fragment spread (or the
+    item is dropped, when the chosen decoder rejects it). -/
+theorem C19_decoded_kind_by_keys (kvs : JFields) (s : Selection) (rest : Selections)
+    (h : decSelItems currentDisc (.cons (.obj kvs) .nil) = .cons s rest) :
+    rest = .nil ∧
+    kindOf s = (if kvs.hasKey kAlias then SelKind.field
+                else if kvs.hasKey kTypeCondition then SelKind.inline else SelKind.spread) :=
+  decSelItems_obj_kind kvs s rest h
 
 /- ======================= strings ======================= -/
 
@@ -97,26 +192,18 @@ def c19IllFormed : QueryDoc :=
                 [{ name := str "s", value := .mk .string [0xFF] .nil Pos.zero, pos := Pos.zero }] [] .nil Pos.zero) .nil }],
     frags := [] }
 
-/-- The hypothesis `Utf8Clean` is needed, whatever the discriminator: the byte FF comes back as
-    U+FFFD (EF BF BD). -/
+/-- The hypothesis of `C19_roundtrip` is needed: the byte FF comes back as U+FFFD (EF BF BD). -/
 theorem C19_roundtrip_illformed_utf8_counterexample :
-    ¬ Utf8Clean c19IllFormed ∧
-    decodeQueryDocWith repairedDisc (encodeQueryDoc c19IllFormed) = .ok
+    utf8CleanB c19IllFormed = false ∧
+    decodeQueryDoc (encodeQueryDoc c19IllFormed) = .ok
       { ops := [{ op := str "query", name := [], vars := [], dirs := [], pos := Pos.zero,
                   sel := .cons (.field (str "a") (str "a")
                     [{ name := str "s", value := .mk .string [0xEF, 0xBF, 0xBD] .nil Pos.zero, pos := Pos.zero }] []
                     .nil Pos.zero) .nil }],
         frags := [] } := by
   constructor
-  · intro h
-    have h1 := h.1 _ (List.mem_singleton.mpr rfl)
-    have h2 := h1.2.2.2.2
-    simp only [FixSels, FixSel] at h2
-    have h3 := h2.1.2.2.1 _ (List.mem_singleton.mpr rfl)
-    have h4 := h3.2
-    simp only [FixValue] at h4
-    exact absurd h4.1 (by decide)
-  · rw [decode_repaired_encode]
+  · decide
+  · rw [C19_roundtrip_image]
     have hs : sanitize [0xFF] = [0xEF, 0xBF, 0xBD] := by decide
     have ha : sanitize (str "a") = str "a" := by decide
     have hq : sanitize (str "query") = str "query" := by decide
@@ -124,14 +211,70 @@ theorem C19_roundtrip_illformed_utf8_counterexample :
     simp [imgDoc, c19IllFormed, imgOp, imgSels, imgSel, imgArg, imgValue, imgChildren, hs, ha, hq, h1,
       sanitize_nil]
 
-/-- non-vacuity: the witness of R19 is UTF-8 clean, so `C19_roundtrip` applies to it -/
-example : decodeQueryDocWith repairedDisc (encodeQueryDoc c19Witness) = .ok (stripDoc c19Witness) :=
-  C19_roundtrip c19Witness (by
-    refine ⟨?_, by simp [c19Witness]⟩
-    intro o ho
-    simp only [c19Witness, List.mem_singleton] at ho
-    subst ho
-    simp only [FixOp, FixSels, FixSel, FixArg, FixDir]
-    refine ⟨by decide, by decide, by simp, by simp, ?_⟩
-    refine ⟨⟨by decide, by decide, by simp, by simp, trivial⟩, ⟨by decide, by simp⟩,
-      ⟨by decide, by simp, ⟨by decide, by decide, by simp, by simp, trivial⟩, trivial⟩, trivial⟩)
+/-- strings made of ASCII bytes are well-formed (in particular every name the lexer accepts) -/
+theorem C19_ascii_is_wellformed (b : Bytes) (h : ∀ x ∈ b, x < 128) : sanitize b = b := sanitize_ascii b h
+
+/- ======================= HISTORY: the decoder before the repair ======================= -/
+/- `legacyDisc` is what `UnmarshalSelectionSet` did before the commit "JSON-decoded selections keep
+   their kind": Field decoder first, and it accepts any object.  These theorems are about
+   `decodeQueryDocWith legacyDisc`, NOT about the current code. -/
+
+/-- `{ a ...F ... on T { b } }` as the parser builds it -/
+def c19Witness : QueryDoc :=
+  { ops := [{ op := str "query", name := [], vars := [], dirs := [], pos := Pos.zero,
+              sel := .cons (.field (str "a") (str "a") [] [] .nil Pos.zero)
+                    (.cons (.spread (str "F") [] Pos.zero)
+                    (.cons (.inline (str "T") [] (.cons (.field (str "b") (str "b") [] [] .nil Pos.zero) .nil) Pos.zero)
+                     .nil)) }],
+    frags := [] }
+
+/-- (history) Complete characterisation of the legacy round trip: it never failed, and what came
+    back was the document with positions dropped, strings coerced to UTF-8 and EVERY fragment
+    spread / inline fragment replaced by a field. -/
+theorem C19_legacy_roundtrip_image (d : QueryDoc) :
+    decodeQueryDocWith legacyDisc (encodeQueryDoc d) = .ok (imgDoc sanitize true d) :=
+  decode_legacy_encode d
+
+/-- (history) … in particular every selection of the result, at every depth, was a field. -/
+theorem C19_legacy_roundtrip_all_fields (d : QueryDoc) :
+    ∃ d', decodeQueryDocWith legacyDisc (encodeQueryDoc d) = .ok d' ∧ ∀ k ∈ docKinds d', k = SelKind.field := by
+  refine ⟨_, C19_legacy_roundtrip_image d, ?_⟩
+  intro k hk
+  simp only [docKinds, imgDoc, List.mem_append, List.mem_flatMap, List.mem_map] at hk
+  rcases hk with ⟨o, ⟨o', _, rfl⟩, hk⟩ | ⟨fr, ⟨fr', _, rfl⟩, hk⟩
+  · exact selsKinds_img_legacy sanitize o'.sel k (by simpa [imgOp] using hk)
+  · exact selsKinds_img_legacy sanitize fr'.sel k (by simpa [imgFrag] using hk)
+
+/-- (history) the defect, kernel-checked on the model: with the legacy discriminator the round trip
+    of `{ a ...F ... on T { b } }` succeeded and returned selections of kinds field, field, field,
+    field instead of field, spread, inline, field. -/
+theorem C19_legacy_roundtrip_counterexample :
+    ∃ d', decodeQueryDocWith legacyDisc (encodeQueryDoc c19Witness) = .ok d' ∧
+      docKinds c19Witness = [.field, .spread, .inline, .field] ∧
+      docKinds d' = [.field, .field, .field, .field] ∧ docKinds d' ≠ docKinds c19Witness := by
+  refine ⟨_, C19_legacy_roundtrip_image c19Witness, ?_, ?_, ?_⟩ <;> decide
+
+/-- (history) documents whose selections are all fields did round-trip with the legacy decoder. -/
+theorem C19_legacy_roundtrip_fields_only (d : QueryDoc) (hf : FieldsOnly d) (hc : Utf8Clean d) :
+    decodeQueryDocWith legacyDisc (encodeQueryDoc d) = .ok (stripDoc d) := by
+  rw [C19_legacy_roundtrip_image, imgDoc_fieldsOnly sanitize d hf, imgDoc_fix sanitize false d hc]
+  rfl
+
+/- ======================= non-vacuity ======================= -/
+
+/-- the witness of the repaired defect is well-formed, and the current code returns it intact -/
+example : decodeQueryDoc (encodeQueryDoc c19Witness) = .ok (stripDoc c19Witness) :=
+  C19_roundtrip c19Witness (by decide)
+
+example : ∃ d', decodeQueryDoc (encodeQueryDoc c19Witness) = .ok d' ∧
+    docKinds d' = [.field, .spread, .inline, .field] := by
+  obtain ⟨d', h1, h2⟩ := C19_roundtrip_kinds c19Witness
+  exact ⟨d', h1, by rw [h2]; decide⟩
+
+/-- depth 3 below the operation: the `b` inside `... on T` is found at path [2, 0] on both sides -/
+example : (docSelAt c19Witness (.op 0) 2 [0]).map kindOf = some SelKind.field := by decide
+
+
+/-- the source-level hypothesis is satisfiable (kernel-evaluated on a tiny source; check C19
+    evaluates `sourceCleanB` with the compiled driver on every source it parses) -/
+example : sourceCleanB (str "{a}") = true := by decide
